@@ -1,6 +1,6 @@
 """C16 — error replies are coherent (DESIGN.md §4 C16)."""
 
-PKGS = ["./internal/endpoint/smtp/", "./internal/target/queue/", "./internal/msgpipeline/", "./internal/check/milter/", "./internal/target/remote/", "./internal/target/smtp/"]
+PKGS = ["./internal/endpoint/smtp/", "./internal/check/dnsbl/", "./internal/check/dns/", "./internal/target/queue/", "./internal/msgpipeline/", "./internal/check/milter/", "./internal/target/remote/", "./internal/target/smtp/"]
 
 
 def harness(c, n, replay_ops=None):
@@ -71,11 +71,19 @@ def run(c):
         "target.smtp / target.lmtp configured by the real `auth` directive (plain / forward with and without client credentials / external / off), the AUTH command "
         "answered by the scripted next hop with 235, every reply class (535 5.7.8, 454 4.7.0, without enhanced code, 552, a 2xx that is not 235, incoherent ones), a dropped "
         "connection, garbage, an unexpected challenge; "
+        "round 10: interrupted lookups (context.Canceled / deadline bare and as the resolver / net wrap them: DNSError with a cause, OpError, marker and field wrappers) "
+        "at every site of the SMTPCode / SMTPEnchCode pair (remote MX lookup, no usable MX, smtpconn dial errors, check.dnsbl, require_mx_record, require_matching_rdns); "
+        "1-3 statuses for ONE recipient within one attempt of a partial-delivery target (every ordered pair of the five failure classes, success statuses between, triples); "
+        "the real dnsbl checkLists with 1-4 lists (clean / listed with a score / lookup failing with any error value; ip4, ip6, EHLO, MAIL FROM identities; every ordered pair "
+        "of 13 failure values), each failed list alone and all together; sessions of several transactions on the real endpoint (MAIL with / without SMTPUTF8 whose delivery start "
+        "succeeds or fails with any value, RCPT, RSET in any order, 2-8 commands, defer_sender_reject on / off), every reply read from the wire; "
         "distinct = distinct op lines",
         explanation="theorems over all error trees, all client errors, all lists of per-MX / per-endpoint outcomes, all histories of attempts (any length, any attempt "
         "bound, any starting state), all lists of stored errors in a report, all envelopes of recipients in one attempt (the record of a recipient is a function of its own error only), "
         "all auth configurations x answers to AUTH of a downstream, all ways a limit refuses a message, all AUTH scripts (any number of providers, any "
         "error values: the reply is a function of which steps failed only) + decide over the regenerated literal table; "
+        "all lists of statuses for one recipient (record and decision come from the last failure), all lists of DNSBL outcomes under any scheduling, "
+        "all sequences of MAIL / RCPT / RSET commands (a refusal answers the open transaction under its own SMTPUTF8 flag) + "
         "model tied to the code by differential runs (the real error values are abstracted into model terms node by node and compared)",
         search=search,
     )
